@@ -130,7 +130,8 @@ def replay(ctx, pid, mode, behaviours, r1cs_share, nproc=12):
 
 def replay_file(ctx, path):
     case = json.load(open(path))
-    res = ctx.run_vh(["gadget-tiny"], case["cases"], tags=("g_merkle",)) if case.get("kind") == "gadget-tiny" else ctx.run_vh(["mtb"], case["cases"])
+    res = ctx.run_vh(["gadget-tiny"], case["cases"], tags=("g_merkle",)) if case.get("kind") == "gadget-tiny" else \
+        ctx.run_vh(["e2e"], case["cases"], timeout=3000) if case.get("kind") == "e2e" else ctx.run_vh(["mtb"], case["cases"])
     bad = [x for x in res if not x["ok"]]
     for x in bad:
         print("REPRODUCED:", json.dumps(x)[:700])
@@ -166,3 +167,22 @@ def tiny_relation(ctx, mode, configs, nproc=12):
         total += ev
         ctx.cov.setdefault("tiny_field_relation", {})["F_%d d=%d b=%d" % (p, d, b)] = dict(tuples=ev, accepted=len(acc))
     return total
+
+
+def end_to_end(ctx, mode, behaviours, n):
+    """Histories through the whole system: real off-chain tree -> helper hash -> JSON -> HTTP prover service -> proof verified against the
+    on-chain hash formula -> contract root advances iff MTB.tla applies the batch."""
+    cand = [t for t in behaviours if t["depth"] == 2 and t["batchSize"] == 2 and all(isinstance(o["batch"]["start"], dict) and o["batch"]["start"]["cls"] == "abs" for o in t["ops"])]
+    acc = [t for t in cand if t["ops"][-1]["accept"]][: n // 2]
+    rej = [t for t in cand if not t["ops"][-1]["accept"]][: n - len(acc)]
+    pick = acc + rej
+    if not pick:
+        return 0
+    res = ctx.run_vh(["e2e"], dict(behaviours=pick), timeout=3000)
+    if len(res) != len(pick):
+        raise Infra("e2e returned %d results for %d behaviours" % (len(res), len(pick)))
+    for x in res:
+        if not x["ok"]:
+            ctx.violation("end-to-end (%s): %s: %s" % (mode, x["id"], x.get("detail")), dict(kind="e2e", cases=x.get("case")))
+    ctx.cov["end_to_end_histories"] = len(pick)
+    return len(pick)
